@@ -457,7 +457,12 @@ func writeReplay(prop string, job Job, v world.Violation) string {
 }
 
 func writeEvidence(ev *Evidence) {
-	os.MkdirAll("/verif/evidence", 0o755)
+	dir := "/verif/evidence"
+	if d := os.Getenv("SAOMON_EVIDENCE_DIR"); d != "" {
+		// dev aid: triage runs against a scratch copy must not overwrite the evidence of /repo
+		dir = d
+	}
+	os.MkdirAll(dir, 0o755)
 	b, _ := json.MarshalIndent(ev, "", " ")
-	os.WriteFile("/verif/evidence/"+ev.PropertyID+".json", b, 0o644)
+	os.WriteFile(dir+"/"+ev.PropertyID+".json", b, 0o644)
 }
